@@ -194,3 +194,121 @@ def residual_after(X, idx, direction):
         return X - Q @ (Q.T @ X)
     Q = span_basis(X[idx].T)
     return X - (X @ Q) @ Q.T
+
+
+# --------------------------------------------------------------------------------------
+# concrete-state comparison (E2: a merge is accepted only after comparing every attribute)
+
+
+def _arr_close(a, b, rtol):
+    a = np.asarray(a)
+    b = np.asarray(b)
+    if a.shape != b.shape:
+        return False
+    if a.dtype == bool or b.dtype == bool or a.dtype.kind in "iu" and b.dtype.kind in "iu":
+        return bool(np.array_equal(a, b))
+    if a.dtype.kind not in "fiu" or b.dtype.kind not in "fiu":
+        return bool(np.array_equal(a, b))
+    a = a.astype(float)
+    b = b.astype(float)
+    inf_a, inf_b = ~np.isfinite(a), ~np.isfinite(b)
+    if not np.array_equal(inf_a, inf_b):
+        return False
+    if inf_a.any() and not np.array_equal(a[inf_a], b[inf_b]):
+        # nan != nan: treat equal positions of nan as equal
+        if not (np.isnan(a[inf_a]) == np.isnan(b[inf_b])).all():
+            return False
+    fa, fb = a[~inf_a], b[~inf_b]
+    if fa.size == 0:
+        return True
+    scale = max(1.0, float(np.max(np.abs(fa))), float(np.max(np.abs(fb))))
+    return bool(np.max(np.abs(fa - fb)) <= rtol * scale)
+
+
+def diff_states(a, b, skip=(), rtol=1e-9, loose=None):
+    """Attribute-by-attribute comparison of two estimators' instance dicts.
+    Returns a list of human-readable differences (empty = same concrete state)."""
+    loose = loose or {}
+    va = {k: v for k, v in vars(a).items() if k not in skip and not callable(v)}
+    vb = {k: v for k, v in vars(b).items() if k not in skip and not callable(v)}
+    out = []
+    for k in sorted(set(va) | set(vb)):
+        if k not in va or k not in vb:
+            out.append("attribute %s only on %s" % (k, "first" if k in va else "second"))
+            continue
+        x, y = va[k], vb[k]
+        if isinstance(x, np.ndarray) or isinstance(y, np.ndarray):
+            if not (isinstance(x, np.ndarray) and isinstance(y, np.ndarray)) or not _arr_close(x, y, loose.get(k, rtol)):
+                out.append("%s: %s vs %s" % (k, np.asarray(x).tolist() if np.size(x) < 40 else np.shape(x), np.asarray(y).tolist() if np.size(y) < 40 else np.shape(y)))
+        elif isinstance(x, (int, float, np.integer, np.floating)) and isinstance(y, (int, float, np.integer, np.floating)) and not isinstance(x, bool):
+            if not _arr_close(np.array([x], float), np.array([y], float), loose.get(k, rtol)):
+                out.append("%s: %r vs %r" % (k, x, y))
+        else:
+            try:
+                same = x == y
+                if isinstance(same, np.ndarray):
+                    same = bool(same.all())
+            except Exception:
+                same = x is y
+            if not same:
+                out.append("%s: %r vs %r" % (k, x, y))
+    return out
+
+
+# --------------------------------------------------------------------------------------
+# CUR / PCov-CUR reference scores (dense SVD / eigh on an independently computed residual)
+
+GAP = 1e-6
+
+
+def cur_reference(kind, direction, X, y, prefix, k, mixing=None):
+    """Reference importance score in state "prefix selected" (as of a refresh in that state).
+
+    Returns dict(pi, gap_ok, exhausted): pi = sum of squares over the top-k right (feature) /
+    left (sample) singular vectors of the projection residual (CUR), or over the top-k
+    eigenvectors of the PCovR-modified covariance / Gram matrix built from the residual X and
+    the unexplained part of y (PCov-CUR). gap_ok is the judgeability rule of DESIGN §3.5."""
+    X = np.asarray(X, float)
+    prefix = [int(i) for i in prefix]
+    uniq = sorted(set(prefix))
+    Xr = residual_after(X, uniq, direction)
+    s_full = np.linalg.svd(X, compute_uv=False)
+    smax = s_full[0] if s_full.size else 0.0
+    if kind == "CUR":
+        U, sv, Vt = np.linalg.svd(Xr, full_matrices=False)
+        if sv.size == 0 or sv[0] <= 1e-9 * max(smax, 1e-300):
+            return dict(pi=None, gap_ok=False, exhausted=True)
+        nxt = sv[k] if k < sv.size else 0.0
+        gap_ok = k <= sv.size and (sv[k - 1] - nxt) / sv[0] > GAP
+        vec = Vt[:k].T if direction == "feature" else U[:, :k]
+        return dict(pi=(vec ** 2).sum(axis=1), gap_ok=bool(gap_ok), exhausted=False)
+    Y = np.asarray(y, float).reshape(X.shape[0], -1)
+    if direction == "feature":
+        if uniq:
+            Q = span_basis(X[:, uniq])
+            Yr = Y - Q @ (Q.T @ Y)
+        else:
+            Yr = Y.copy()
+    else:
+        if uniq:
+            W = np.linalg.pinv(X[uniq]) @ Y[uniq]  # min-norm least squares on the selected samples only
+            Yr = Y - X @ W
+        else:
+            Yr = Y.copy()
+    M, ok = pcov_matrix(direction, Xr, Yr, mixing)
+    M = (M + M.T) / 2.0
+    w, V = np.linalg.eigh(M)
+    w, V = w[::-1], V[:, ::-1]
+    scale = max(abs(w[0]), 1e-300)
+    sv_r = np.linalg.svd(Xr, compute_uv=False)
+    exhausted = sv_r.size == 0 or sv_r[0] <= 1e-9 * max(smax, 1e-300)
+    if abs(w[0]) <= 1e-12 * max(1.0, smax ** 2):
+        return dict(pi=None, gap_ok=False, exhausted=True)
+    nxt = w[k] if k < w.size else 0.0
+    gap_ok = ok and k <= w.size and (w[k - 1] - nxt) / scale > GAP
+    # residual singular values in the grey zone make the inverse square root ambiguous
+    if sv_r.size and smax > 0:
+        rel = sv_r / smax
+        if ((rel > 1e-12) & (rel < 1e-6)).any():
+            gap_ok = False
+    return dict(pi=(V[:, :k] ** 2).sum(axis=1), gap_ok=bool(gap_ok), exhausted=bool(exhausted))
